@@ -377,7 +377,7 @@ def unit_oracle(ctx, case, events, log, info):
 
 def unit_cases(ctx):
     ctx.correspondence("segment-fetcher-vs-model")
-    n = ctx.n(600, 7000)
+    n = ctx.n(500, 7000)
     terms, info = [], []
     for i in range(n):
         r = ctx.rng("unit", i)
@@ -1095,7 +1095,7 @@ def guess_cases(ctx):
         case = json.load(open(path))["case"]
         res = judge_guess_case(ctx, case, *run_guess_case(case))
         ctx.case((os.path.basename(path), tuple(res)), kind="corpus")
-    n = ctx.n(25, 300)
+    n = ctx.n(20, 300)
     for i in range(n):
         r = ctx.rng("guess", i)
         case = gen_guess_case(r)
